@@ -523,11 +523,12 @@ class MemOrchestrator(BaseOrchestrator):
     ) -> list["InvocationId"]:
         if not invocation_ids or status_filter is None:
             return []
-        return [
-            inv_id
-            for inv_id in invocation_ids
-            if self.get_invocation_status(inv_id) in status_filter
-        ]
+        matched = []
+        for inv_id in invocation_ids:
+            record = self.invocation_status_record.get(inv_id)
+            if record is not None and record.status in status_filter:
+                matched.append(inv_id)  # an unknown id matches no status
+        return matched
 
     def register_runner_heartbeats(
         self, runner_ids: list[str], can_run_atomic_service: bool = False
